@@ -33,6 +33,37 @@ theorem normalise_scale (a : Rat) (ha : 0 < a) (w : Vec) :
     have : w.sum ≤ 0 := not_lt.mp hs
     nlinarith
 
+/-- a row that is not skipped enters the transport problem as a probability vector: total mass 1
+(so item and reference have equal mass, the condition under which couplings exist —
+`feasible_mass_balance`, Props/C07) -/
+theorem normalise_sum_one (w v : Vec) (h : normalise w = some v) : v.sum = 1 := by
+  unfold normalise at h
+  split at h
+  · rename_i hs
+    obtain rfl := Option.some.inj h
+    have : w.map (· / w.sum) = w.map (w.sum⁻¹ * ·) := by
+      apply List.map_congr_left
+      intro x _
+      exact div_eq_inv_mul x w.sum
+    rw [this, sum_map_mul_left, inv_mul_cancel₀ (ne_of_gt hs)]
+  · cases h
+
+/-- normalisation is idempotent: an already normalised row is left as it is (so the embedding of a
+measure given by its normalised weights equals the one given by raw counts) -/
+theorem normalise_idempotent (w v : Vec) (h : normalise w = some v) : normalise v = some v := by
+  have h1 := normalise_sum_one w v h
+  unfold normalise
+  rw [h1, if_pos (by norm_num)]
+  congr 1
+  conv => rhs; rw [← List.map_id v]
+  apply List.map_congr_left
+  intro x _
+  simp
+
+example : normalise [2, 0, 6] = some [1/4, 0, 3/4] ∧ normalise [1/4, 0, 3/4] = some [1/4, 0, 3/4] ∧
+    normalise [0, 0] = none := by
+  refine ⟨by decide +kernel, by decide +kernel, by decide +kernel⟩
+
 /-- the output row is a function of the images alone, whatever the post-processing -/
 theorem lot_of_images (post : Mat → Mat → Mat) (d : Nat) (P X P' X' R : Mat) (q : Vec)
     (h : images d P X q = images d P' X' q) : lot post d P X R q = lot post d P' X' R q := by
